@@ -2,13 +2,15 @@ package main
 
 // C19 — stored attachments stay inside the terminal's directory.
 //
-// op (implementation side; the model side is oracle/drv_c19.ml):
-//   c19 <dialect> <v2019 0|1> <bcd-hex> <name-hex|->...
-// One real attachment connection (connection.run via VerifRun over net.Pipe) with the REAL default file
-// handler, in a fresh sandbox:  <root>/l1/l2/l3/l4/l5/l6/w  is the working directory, every level holds
-// a canary file.  The session announces the names in one 0x1210 and closes; the answer lists every
-// file-system entry that appeared below <root> (relative to the working directory), file.log excepted.
-// The token @ROOT@ inside a name is replaced by the sandbox root (absolute names that stay in the sandbox).
+// ops (implementation side; the model side is oracle/drv_c19.ml):
+//   c19 <dialect> <segment-hex>...                      a whole session (0x1210, chunks, ...) then close
+//   c19abs <dialect> <v2019 0|1> <bcd-hex> <name-hex>...  names only; the token @ROOT@ inside a name is replaced
+//                                                       by the sandbox root (absolute names that stay in the
+//                                                       sandbox); a plain item "zz" is announced as well
+// Both run one real attachment connection (connection.run via VerifRun over net.Pipe) with the REAL default
+// file handler in a fresh sandbox:  <root>/l1/l2/l3/l4/l5/l6/w  is the working directory, every level holds a
+// canary file.  The answer lists every file-system entry that appeared below <root> (relative to the working
+// directory; files with length and hash of their content), file.log excepted.
 
 import (
 	"bytes"
@@ -30,6 +32,7 @@ type sandbox struct {
 	root, w  string
 	canaries []string
 	before   map[string]bool
+	content  map[string][]byte
 }
 
 func newSandbox() *sandbox {
@@ -38,7 +41,7 @@ func newSandbox() *sandbox {
 		panic(err)
 	}
 	root, _ = filepath.EvalSymlinks(root)
-	s := &sandbox{root: root, before: map[string]bool{}}
+	s := &sandbox{root: root, before: map[string]bool{}, content: map[string][]byte{}}
 	dir := root
 	for i := 0; i <= depth; i++ {
 		s.canaries = append(s.canaries, filepath.Join(dir, "canary"))
@@ -66,6 +69,10 @@ func (s *sandbox) inspect() (created []string, canariesOK bool) {
 		if !s.before[p] && p != filepath.Join(s.w, "file.log") {
 			rel, _ := filepath.Rel(s.w, p)
 			created = append(created, rel)
+			if fi, err := os.Lstat(p); err == nil && fi.Mode().IsRegular() {
+				b, _ := os.ReadFile(p)
+				s.content[rel] = b
+			}
 		}
 		return nil
 	})
@@ -88,10 +95,12 @@ type outcome struct {
 	phone      string
 	panicked   string
 	stages     []int
+	content    map[string][]byte
 }
 
-// session: announce the names (one 0x1210), close; default file handler, cwd = sandbox w
-func session(d int, v2019 bool, bcd []byte, names [][]byte) outcome {
+// session: run the segments produced by mk (which may use the sandbox root) with the default file handler,
+// cwd = sandbox w
+func session(d int, mk func(root string) [][]byte) outcome {
 	s := newSandbox()
 	defer s.close()
 	old, _ := os.Getwd()
@@ -99,22 +108,29 @@ func session(d int, v2019 bool, bcd []byte, names [][]byte) outcome {
 		panic(err)
 	}
 	defer os.Chdir(old)
-	var items []AttItem
-	for _, n := range names {
-		n = bytes.ReplaceAll(n, []byte("@ROOT@"), []byte(s.root))
-		if len(n) > 255 {
-			n = n[:255]
-		}
-		items = append(items, AttItem{Name: n, Size: 3})
-	}
-	body := Body1210(d, []byte("TERMINAL-ID"), 0, -1, items)
-	res := AttRun(d, [][]byte{Frame808(0x1210, v2019, bcd, 7, body)}, attachment.VerifNewDefaultFileEvent())
+	res := AttRun(d, mk(s.root), attachment.VerifNewDefaultFileEvent())
 	o := outcome{panicked: res.Panic}
 	for _, e := range res.Events {
 		o.stages = append(o.stages, e.Stage)
 	}
 	o.created, o.canariesOK = s.inspect()
+	o.content = s.content
 	return o
+}
+
+func absSegs(d int, v2019 bool, bcd []byte, names [][]byte) func(root string) [][]byte {
+	return func(root string) [][]byte {
+		var items []AttItem
+		for _, n := range names {
+			n = bytes.ReplaceAll(n, []byte("@ROOT@"), []byte(root))
+			if len(n) > 255 {
+				n = n[:255]
+			}
+			items = append(items, AttItem{Name: n, Size: 3})
+		}
+		items = append(items, AttItem{Name: []byte("zz"), Size: 3})
+		return [][]byte{Frame808(0x1210, v2019, bcd, 7, Body1210(d, []byte("TERMINAL-ID"), 0, -1, items))}
+	}
 }
 
 func phoneOf(bcd []byte) string { // the standard's reading: BCD digits, leading zeros dropped (all-zero kept)
@@ -126,13 +142,26 @@ func phoneOf(bcd []byte) string { // the standard's reading: BCD digits, leading
 	return t
 }
 
+func fnv32(b []byte) uint32 {
+	h := uint32(2166136261)
+	for _, x := range b {
+		h ^= uint32(x)
+		h *= 16777619
+	}
+	return h
+}
+
 func canon(o outcome) string {
 	if o.panicked != "" {
 		return "panic"
 	}
 	var hx []string
 	for _, c := range o.created {
-		hx = append(hx, Hx([]byte(c)))
+		e := Hx([]byte(c))
+		if b, ok := o.content[c]; ok {
+			e += fmt.Sprintf(":%d/%08x", len(b), fnv32(b))
+		}
+		hx = append(hx, e)
 	}
 	if len(hx) == 0 {
 		hx = []string{"-"}
@@ -141,11 +170,19 @@ func canon(o outcome) string {
 }
 
 func opC19(a []string) string {
+	var segs [][]byte
+	for _, h := range a[1:] {
+		segs = append(segs, Unhx(h))
+	}
+	return canon(session(atoi(a[0]), func(string) [][]byte { return segs }))
+}
+
+func opC19abs(a []string) string {
 	var names [][]byte
 	for _, h := range a[3:] {
 		names = append(names, Unhx(h))
 	}
-	return canon(session(atoi(a[0]), a[1] == "1", Unhx(a[2]), names))
+	return canon(session(atoi(a[0]), absSegs(atoi(a[0]), a[1] == "1", Unhx(a[2]), names)))
 }
 
 func atoi(s string) int {
@@ -156,6 +193,7 @@ func atoi(s string) int {
 
 func main() {
 	RegisterOp("c19", opC19)
+	RegisterOp("c19abs", opC19abs)
 	Main("C19", c19)
 }
 
@@ -164,15 +202,43 @@ func c19(c *Ctx) {
 	rng := c.Rng
 	nsess := 0
 	run := func(d int, v2019 bool, bcd []byte, names [][]byte, what string) {
-		req := fmt.Sprintf("c19 %d %d %s", d, b2i(v2019), Hx(bcd))
 		nontriv := false
+		abs := false
 		for _, n := range names {
-			req += " " + Hx(n)
 			if len(n) == 0 || string(n) == "." || string(n) == ".." || bytes.ContainsAny(n, "/") {
 				nontriv = true
 			}
+			if bytes.Contains(n, []byte("@ROOT@")) {
+				abs = true
+			}
 		}
-		o := session(d, v2019, bcd, names)
+		var req string
+		var o outcome
+		sent := map[string][]byte{} // plain names whose content was sent as a chunk
+		if abs {
+			req = fmt.Sprintf("c19abs %d %d %s", d, b2i(v2019), Hx(bcd))
+			for _, n := range names {
+				req += " " + Hx(n)
+			}
+			o = session(d, absSegs(d, v2019, bcd, names))
+		} else {
+			var items []AttItem
+			for _, n := range names {
+				items = append(items, AttItem{Name: n, Size: 3})
+			}
+			segs := [][]byte{Frame808(0x1210, v2019, bcd, 7, Body1210(d, []byte("TERMINAL-ID"), 0, -1, items))}
+			for _, n := range names { // the content of names a chunk header can carry
+				if (len(n) <= 50 || d == AttHLJ) && len(n) > 0 && n[0] != 0 && n[len(n)-1] != 0 && rng.Intn(3) > 0 {
+					if _, dup := sent[string(n)]; !dup {
+						data := []byte{byte(rng.Intn(256)), byte(rng.Intn(256)), byte(rng.Intn(256))}
+						sent[string(n)] = data
+						segs = append(segs, Chunk(d, n, 0, data))
+					}
+				}
+			}
+			req = "c19" + AttRequest(d, segs)[3:]
+			o = session(d, func(string) [][]byte { return segs })
+		}
 		c.Case(req, canon(o), nontriv)
 		c.Count(what)
 		nsess++
@@ -204,6 +270,10 @@ func c19(c *Ctx) {
 					if cr == filepath.Join(phone, string(n)) {
 						found = true
 					}
+				}
+				if data, ok := sent[string(n)]; ok && found && !bytes.Equal(o.content[filepath.Join(phone, string(n))], data) {
+					c.Violate(Violation{Signature: "C19/content", What: "a stored file does not hold the uploaded bytes",
+						Input: req, Observed: fmt.Sprintf("%x", o.content[filepath.Join(phone, string(n))]), Required: fmt.Sprintf("%x", data)})
 				}
 				if !found {
 					c.Violate(Violation{Signature: "C19/not-stored", What: "a plain file name was not stored in the terminal directory",
